@@ -157,6 +157,8 @@ func runC08(c *Ctx) {
 	R.Rule("C08.R2c", "completeness: every StartTag path — and every SelfClosingTag path for a non-void element, whose slash browsers and the tokenizer ignore — on which the element is in the skip set, admitted by no element table and past the script/style gate leaves the arm with the skip flag set")
 	R.Rule("C08.R4", "increments are matchable: the (true, depth+1) site is reached only for elements that can have an end tag (not under a void-element test)")
 	R.Rule("C08.R5", "the skip set is edited only by builder methods (SkipElementsContent / AllowElementsContent / defaults), which store and delete keys that are strings.ToLower(name) and nothing else")
+	R.Rule("C08.R8", "the skip setters look at the skip set only (= C17.R9, cited): SkipElementsContent / AllowElementsContent consult no table other than the one they update — a guard that looks the name up in a sibling table (the elements allowed without attributes) makes the call a no-op for every name that happens to be in that table")
+	buildersReadOnlyTheirOwnTables(c, "C08.R8", "(*Policy).SkipElementsContent", "(*Policy).AllowElementsContent")
 	R.Rule("C08.R7", "a skip-content element becomes a known element only together with a rule (= C01.R8, cited): an entry created by AllowAttrs() with no names would route its tags through the no-attributes path, which never opens a skipped region")
 	c01EntryCreationRule(c, "C08.R7", " — and, being known, a skip-content element no longer has its content removed")
 	R.Rule("C08.R6", "a policy's skip set is its own: the map installed in the skip-set field is freshly made in the storing function (never a package-level table or another policy's map), so SkipElementsContent / AllowElementsContent on one policy cannot change what another policy skips")
